@@ -178,7 +178,7 @@ def check_relative(seed, n):
             evals += 1
             accepted = prog is not None
             should = -128 <= exp <= 127
-            case = {"text": text, "mode": mode}
+            case = {"text": text, "mode": mode, "exp": exp, "br": br, "forward": want >= 0}
             if accepted != should:
                 violations.append({"property": "C04", "stream": "relative", "sig": "rel-accept:" + (mode or "run"), "case": case,
                                    "what": "relative branch over a distance of {} is {} in {} mode".format(exp, "accepted" if accepted else "rejected", mode or "run")})
@@ -189,3 +189,64 @@ def check_relative(seed, n):
                                        "what": "relative branch to a label {} instructions away got operand {} in {} mode".format(
                                            exp, ops[0].args[0] if ops else None, mode or "run")})
     return {"evaluations": evals, "violations": violations, "disagreements": []}
+
+
+def replay_case(stream, case):
+    """Re-evaluate one recorded case against the real checker (and the placement specification)."""
+    import hera.data as D
+    if stream == "relative":
+        st = progrun.make_settings(mode=case.get("mode", ""))
+        res, oplist, prog, pm, exc = chk.real_check(case["text"], st)
+        if res is None:
+            return None
+        accepted = prog is not None
+        exp = case["exp"]
+        if accepted != (-128 <= exp <= 127):
+            return "relative branch over a distance of {} is {}".format(exp, "accepted" if accepted else "rejected")
+        if accepted:
+            op = prog.code[0] if case.get("forward", True) else prog.code[-1]
+            if op.name != case["br"] or op.args[0] != exp:
+                return "relative branch to a label {} instructions away got operand {}".format(exp, op.args[0])
+        return None
+    text, mode, big = case["text"], case.get("mode", ""), case.get("big_stack", False)
+    if "mode" not in case:
+        tabs = {}
+        for m in MODES:
+            st = progrun.make_settings(mode=m, big_stack=big)
+            res, oplist, prog, pm, exc = chk.real_check(text, st)
+            if prog is not None:
+                tabs[m] = {k: int(v) for k, v in prog.symbol_table.items() if isinstance(v, D.Label)}
+        if "" in tabs and "debug" in tabs and tabs[""] != tabs["debug"]:
+            return "code labels differ between run and debug mode"
+        if "assemble" in tabs and "preprocess" in tabs and tabs["assemble"] != tabs["preprocess"]:
+            return "code labels differ between assemble and preprocess mode"
+        return None
+    st = progrun.make_settings(mode=mode, big_stack=big)
+    res, oplist, prog, pm, exc = chk.real_check(text, st)
+    if res is None or prog is None:
+        return None
+    tab = prog.symbol_table
+    lines = [l.split("//")[0].strip() for l in text.split("\n")]
+    for i, l in enumerate(lines):
+        m = re.match(r"^LABEL\((\w+)\)$", l)
+        if m and i + 1 < len(lines):
+            mk = re.match(r"^SET\(R10, (\d+)\)$", lines[i + 1])
+            if not mk:
+                continue
+            name, val = m.group(1), int(mk.group(1))
+            idx = tab.get(name)
+            ok = (isinstance(idx, D.Label) and idx + 1 < len(prog.code)
+                  and prog.code[idx].name == "SETLO" and prog.code[idx].args == [10, val & 0xFF]
+                  and prog.code[idx + 1].name == "SETHI" and prog.code[idx + 1].args == [10, val >> 8])
+            if not ok:
+                return "label {} = {} does not denote the instruction that follows it".format(name, idx)
+    addr, cells = expected_data_layout(text, st.data_start)
+    for name, a in addr.items():
+        if tab.get(name) != a or not isinstance(tab.get(name), D.DataLabel):
+            return "data label {} = {} but the next data cell is at {}".format(name, tab.get(name), a)
+    line, src = res
+    a = proto.run_herad(["sigenv " + src])[0]
+    real = " ".join([str(len(tab))] + ["{} {}".format(chk.w_key(x), chk.w_symval(y)) for x, y in tab.items()])
+    if sorted_tab(a) != sorted_tab(real):
+        return "symbol table differs from the placement specification"
+    return None
